@@ -1733,6 +1733,13 @@ func (e *Exec) sliceOp(fr *Frame, x *ssa.Slice) Value {
 			e.unsupported("slice of pointer to non-array")
 		}
 		n := len(arr.E)
+		if x.High != nil && arr.Chunk != nil {
+			if ht, ok := e.get(fr, x.High).(*Term); ok && !ht.IsConst() {
+				if bt := e.chunkBytes(arr, e.optIdx(fr, x.Low, 0), ht); bt != nil {
+					return &SliceV{Op: bt} // array[lo : off+n]: a read-only view of the copied bytes
+				}
+			}
+		}
 		lo := e.optIdx(fr, x.Low, 0)
 		hi := e.optIdx(fr, x.High, n)
 		mx := e.optIdx(fr, x.Max, n)
@@ -2110,7 +2117,7 @@ func (e *Exec) copyOp(dst, src Value) Value {
 		elems = e.sliceElems(s)
 	case *Term:
 		if !s.IsStrLit() {
-			e.unsupported("copy from symbolic string")
+			return e.copySymString(d, s)
 		}
 		for i := 0; i < len(s.Str); i++ {
 			elems = append(elems, BVU(uint64(s.Str[i]), 8))
@@ -2129,6 +2136,65 @@ func (e *Exec) copyOp(dst, src Value) Value {
 		}
 	}
 	return BVU(uint64(n), 64)
+}
+
+// copy(dst, s) for a symbolic string into an array-backed byte slice: the copied bytes are kept as one opaque
+// chunk of the array (see ArrayV.Chunk); two cases — the string fits (n = len(s)), or it is truncated to the
+// destination's length
+func (e *Exec) copySymString(d *SliceV, s *Term) Value {
+	if d.Op != nil || d.Nil || d.Len == 0 {
+		e.unsupported("copy from symbolic string into opaque/empty bytes")
+	}
+	arr := d.A.V.(*ArrayV)
+	if arr.Chunk != nil {
+		e.unsupported("second copy from a symbolic string into the same array")
+	}
+	ln := App("str.len", IntSort, s)
+	ch := &arrChunk{Off: d.Off, Region: d.Len}
+	var n *Term
+	if e.decideBool(ILe(ln, IntI(int64(d.Len)))) {
+		ch.Bytes, ch.N, n = bytesOfStrTerm(s), ln, ln
+	} else {
+		n = IntI(int64(d.Len))
+		ch.Bytes, ch.N = bytesOfStrTerm(App("str.substr", StrSort, s, IntI(0), n)), n
+	}
+	for i := 0; i < d.Len; i++ {
+		arr.E[d.Off+i] = e.fresh("copy.byte", BV(8))
+	}
+	arr.Chunk = ch
+	return n
+}
+
+// chunkBytes: the bytes of array elements [lo, hi) when that range ends exactly where the chunk's copied bytes end
+func (e *Exec) chunkBytes(arr *ArrayV, lo int, hi *Term) *Term {
+	ch := arr.Chunk
+	if ch == nil || lo > ch.Off {
+		return nil
+	}
+	want := IAdd(IntI(int64(ch.Off)), toIntAny(ch.N))
+	// int arithmetic on Int shadows is wrapped to 64 bits by nested ite terms; the number of bytes copied is at
+	// most the region length, so the unwrapped sum is the value
+	for hi.Op == "ite" && len(hi.Args) == 3 {
+		hi = hi.Args[2]
+	}
+	if toIntAny(hi).Key() != want.Key() && IAdd(toIntAny(ch.N), IntI(int64(ch.Off))).Key() != toIntAny(hi).Key() {
+		return nil
+	}
+	out := ch.Bytes
+	if ch.Off > lo {
+		out = bytesCat(bytesOfBV(concatBytes(arr.E[lo:ch.Off])), out)
+	}
+	return out
+}
+
+func toIntAny(t *Term) *Term {
+	if t.S.K == SInt {
+		return t
+	}
+	if t.IsConst() {
+		return IntConst(t.N)
+	}
+	return BV2Nat(t)
 }
 
 func constantBool(c *ssa.Const) bool     { return constant.BoolVal(c.Value) }
